@@ -256,6 +256,7 @@ def bounded(run):
     ncase = 480 if run.tier == "quick" else 6000
     jobs = [dict(seed=run.seed * 7919 + k, count=ncase // 12) for k in range(12)]
     res, errs = native.pmap("contracts.C02", "nat_sweep", jobs)
+    run.worker_errors(errs, len(jobs))
     ev = sum(r["evaluations"] for r in res if r and "_error" not in r)
     fails = [f for r in res if r and "_error" not in r for f in r["failures"]]
     run.bounded_result("compiled derivatives == published model (native)", f"{MOD}.derivatives",
